@@ -10,6 +10,8 @@ A case is engine independent:
   nodes      ids in table order (int | str | [sds, uid])
   edges      [l, r, k]: match_probability = k/1024 (dyadic: engine floats and model Q agree exactly)
   thr        None | ["p", k] | ["w", w]      (probability k/1024 or integer match weight w)
+             | ["pf", x] | ["wf", w]         (any double probability / any float weight; edge probabilities
+                                              may then be doubles, given as floats instead of k)
 The model works on ranks: position of the id in the engine's sort order (numeric for bare integer
 ids, byte order of the string / of sds||'-__-'||uid otherwise; ids are ASCII).
 """
@@ -121,11 +123,66 @@ def pfloat(k) -> float:
     return k / 1024 if isinstance(k, int) else float(k)
 
 
-def thr_fraction(thr):
+_EFF: dict = {}
+
+
+def single_threshold_prob(w) -> float:
+    """The probability the implementation's own single-threshold conversion computes for weight w."""
+    from splink.internals.misc import threshold_args_to_match_prob
+    return threshold_args_to_match_prob(None, float(w))
+
+
+def effective_threshold(backend: str, p: float) -> Fraction:
+    """Exact rational t such that the engine's `match_probability >= <repr(p)>` on a DOUBLE column is
+    `x >= t` for every double x near p.  DuckDB reads the literal as DECIMAL and its comparison with a
+    DOUBLE can sit one ulp off p (either way); SQLite parses it as the double p.  Determined by probing
+    the 7 doubles around p on an independent connection; None if the answers are not monotone."""
+    key = (backend, repr(p))
+    if key in _EFF:
+        return _EFF[key]
+    import math
+    ds = [p]
+    for _ in range(3):
+        ds.insert(0, math.nextafter(ds[0], -math.inf))
+        ds.append(math.nextafter(ds[-1], math.inf))
+    lit = f"{p}"
+    if backend == "duckdb":
+        import duckdb
+        con = duckdb.connect()
+        con.execute("create table t(i integer, x double)")
+        con.executemany("insert into t values (?, ?)", [[i, x] for i, x in enumerate(ds)])
+        ans = [bool(r[0]) for r in con.execute(f"select x >= {lit} from t order by i").fetchall()]
+        con.close()
+    else:
+        import sqlite3
+        con = sqlite3.connect(":memory:")
+        con.execute("create table t(i integer, x real)")
+        con.executemany("insert into t values (?, ?)", list(enumerate(ds)))
+        ans = [bool(r[0]) for r in con.execute(f"select x >= {lit} from t order by i").fetchall()]
+        con.close()
+    res = None
+    if ans == sorted(ans) and ans[0] is False and ans[-1] is True:
+        res = Fraction(ds[ans.index(True)])
+    _EFF[key] = res
+    return res
+
+
+def thr_fraction(thr, backend=None):
+    """Exact rational the threshold filter compares against.
+    "p": k/1024; "w": integer weight, exactly 2^w/(1+2^w) (never within rounding of a dyadic edge);
+    "pf": any double probability; "wf": any float weight, converted by the implementation's own
+    single-threshold conversion - for these two the value is what the engine really compares a DOUBLE
+    column against when handed the literal (edges may sit exactly on it)."""
     if thr is None:
         return None
     if thr[0] == "p":
         return Fraction(thr[1], 1024)
+    if thr[0] in ("pf", "wf"):
+        p = float(thr[1]) if thr[0] == "pf" else single_threshold_prob(thr[1])
+        t = effective_threshold(backend, p)
+        if t is None:
+            raise ValueError(f"engine comparison around threshold {p!r} is not monotone")
+        return t
     w = int(thr[1])
     b = Fraction(2) ** w
     return b / (1 + b)
@@ -143,7 +200,7 @@ def oracle(case):
             x = parent[x]
         return x
 
-    t = thr_fraction(case["thr"])
+    t = thr_fraction(case["thr"], case["backend"])
     for l, r, k in case["edges"]:
         if t is None or pfrac(k) >= t:
             a, b = find(rk[key_of(l)]), find(rk[key_of(r)])
@@ -234,6 +291,8 @@ def _thr_kwargs(thr):
         return {}
     if thr[0] == "p":
         return {"threshold_match_probability": thr[1] / 1024}
+    if thr[0] == "pf":
+        return {"threshold_match_probability": float(thr[1])}
     return {"threshold_match_weight": thr[1]}      # "w": integer weight, "wf": any float weight
 
 
@@ -389,6 +448,8 @@ def coq_inputs(case):
         t = "None"
     elif thr[0] == "p":
         t = f"(Some (false, 0, {coq_Q(Fraction(thr[1], 1024))}))"
+    elif thr[0] in ("pf", "wf"):
+        t = f"(Some (false, 0, {coq_Q(thr_fraction(thr, case['backend']))}))"
     else:
         t = f"(Some (true, {coq_Z(int(thr[1]))}, 0%Q))"
     return nodes, edges, t
@@ -566,6 +627,31 @@ def build_case(rng, fam, n, entry, backend, idkind, link_type=None, thr="rand", 
         if thr is None and rng.random() < 0.4:
             case["no_prob_col"] = True
     return case
+
+
+DECIMALS = [i / 100 for i in range(10, 100)] + [1 / 3, 2 / 3, 0.6000000000000001, 0.1 + 0.2, 0.999, 0.05]
+
+
+def build_nd_case(rng, fam, n, entry, backend, idkind, link_type=None):
+    """Non-dyadic probabilities: the threshold (a decimal probability, or a float match weight through
+    the implementation's conversion) is exactly equal to the probability of some bridging edges; other
+    edges sit one ulp either side of it or on other decimals."""
+    import math
+    c = build_case(rng, fam, n, entry, backend, idkind, link_type, thr=None, cut_rate=1.0, noise=True)
+    c.pop("no_prob_col", None)
+    if rng.random() < 0.7:
+        t = rng.choice([0.6, 0.8, 0.99, 0.4, 0.5, 0.7, 0.9, 0.3]) if rng.random() < 0.5 else rng.choice(DECIMALS)
+        thr = ["pf", t]
+    else:
+        w = round(rng.uniform(-5, 10), rng.choice([1, 2, 3]))
+        t = single_threshold_prob(w)
+        thr = ["wf", w]
+    pool = [t] * 4 + [math.nextafter(t, 0.0), math.nextafter(t, 1.0)] + [rng.choice(DECIMALS) for _ in range(3)] + [1024]
+    for e in c["edges"]:
+        e[2] = rng.choice(pool)
+    c["thr"] = thr
+    c["family"] = "nd_" + fam
+    return c
 
 
 def labelled_graphs(n):
